@@ -25,7 +25,7 @@ func init() {
 	register(&Property{
 		ID:      "C03",
 		NeedSSA: true,
-		Decided: "Narrow structural necessary conditions only: (nullwidth) every width-specific null scanner nullIndex<T> of the typed ingestion path scans elements of the width of T (it calls the kernel named after 8·sizeof(T) or the generic scanner instantiated with a type of that width), and the floating-point scanners never instantiate the generic scanner with a floating-point type (it would compare values, and -0.0 == 0, where reflect.Value.IsZero and the assembly kernels test bits), in every build configuration; (nullkinds) the reflection path decides `null` for pointer-like kinds (pointer, map, slice, interface) by IsNil, like the typed path's pointer test, never by length or zero-ness; (siblings) the entry points that shred through a shared implementation hand it the same set of level fields (composite literals passed to one callee set the same keys); (mapscratch) the map re-assembly clears its scratch element after each entry; (dispatch) the node-shape dispatchers of the typed, reflection and row paths test the same predicates (optional, repeated, list, map) in the same order. (appendalias) inside a loop, a slice built by appending to a base slice that is the same on every iteration (a parameter not always passed clipped, a field, a value computed before the loop) is not retained unless the base's capacity was clipped: retained slices would share the base's spare capacity. (accum) a recursive walk (schema tree, embedded structs) that adds to an integer parameter — column index, level, byte offset — passes, at every recursive call, an argument computed from that parameter (through arithmetic, conversions, calls that received it, maps filled with it, and the reaching definitions of local struct fields), so the running number is not restarted at a nested level.",
+		Decided: "Narrow structural necessary conditions only: (nullwidth) every width-specific null scanner nullIndex<T> of the typed ingestion path scans elements of the width of T (it calls the kernel named after 8·sizeof(T) or the generic scanner instantiated with a type of that width), and the floating-point scanners never instantiate the generic scanner with a floating-point type (it would compare values, and -0.0 == 0, where reflect.Value.IsZero and the assembly kernels test bits), in every build configuration; (nullkinds) the reflection path decides `null` for pointer-like kinds (pointer, map, slice, interface) by IsNil, like the typed path's pointer test, never by length or zero-ness; (siblings) the entry points that shred through a shared implementation hand it the same set of level fields (composite literals passed to one callee set the same keys); (mapscratch) the map re-assembly clears its scratch element after each entry; (dispatch) the node-shape dispatchers of the typed, reflection and row paths test the same predicates (optional, repeated, list, map) in the same order. (appendalias) inside a loop, a slice built by appending to a base slice that is the same on every iteration (a parameter not always passed clipped, a field, a value computed before the loop) is not retained unless the base's capacity was clipped: retained slices would share the base's spare capacity. (accum) a recursive walk (schema tree, embedded structs) that adds to an integer parameter — column index, level, byte offset — passes, at every recursive call, an argument computed from that parameter (through arithmetic, conversions, calls that received it, maps filled with it, and the reaching definitions of local struct fields), so the running number is not restarted at a nested level. (stride) a typed write function that hands a column buffer's writeValues a scratch array of fixed-width integers reads the physical kind of the column's type in the function that builds it.",
 		NotDecided: "the level values themselves, null-bitmap scanning, batch boundaries, the amounts added to offsets and indexes, ordering of map keys — value-dependent.",
 		Assumptions: []string{"see DESIGN.md §4 C03"},
 		Run:         runC03,
@@ -190,6 +190,7 @@ func runC03(c *Ctx) {
 		return inModule(fn) && !strings.Contains(fnPkgPath(fn), "/internal/quick")
 	})
 	c.Min("C03.accum", 15)
+	c03Stride(c)
 	p := c.P
 	rule := "C03.nullwidth"
 	sizes := types.SizesFor("gc", c.P.Config.GOARCH)
@@ -861,4 +862,55 @@ func nilGuardEdgeTargets(fn *ssa.Function, f *types.Var) []*ssa.BasicBlock {
 		}
 	}
 	return out
+}
+
+// c03Stride — a column buffer reads the array it is handed with the element
+// size of its physical type. A typed write function that builds a scratch array
+// of fixed-width integers (sparse.MakeInt32Array / MakeInt64Array) and passes
+// it to a column buffer's writeValues decides the width from the column: the
+// function that builds the closure reads the physical kind of the column's type
+// (Type.Kind()). One that never looks at the column hands a 4-byte-stride array
+// to an 8-byte column when a tag widens it (F51).
+func c03Stride(c *Ctx) {
+	rule := "C03.stride"
+	p := c.P
+	n := 0
+	tops := map[*ssa.Function]bool{}
+	for _, fn := range p.ModuleSSAFuncs() {
+		if fn.Origin() != nil || fn.Blocks == nil || fnPkgPath(fn) != modPath {
+			continue
+		}
+		makes, writes := false, false
+		allCalls(fn, false, func(_ *ssa.Function, call ssa.CallInstruction) {
+			cc := call.Common()
+			if sc := cc.StaticCallee(); sc != nil && strings.HasSuffix(fnPkgPath(sc), "/sparse") && (sc.Name() == "MakeInt32Array" || sc.Name() == "MakeInt64Array") {
+				makes = true
+			}
+			if cc.IsInvoke() && cc.Method.Name() == "writeValues" {
+				writes = true
+			}
+		})
+		if !makes || !writes {
+			continue
+		}
+		top := fn
+		for top.Parent() != nil {
+			top = top.Parent()
+		}
+		tops[top] = true
+	}
+	for _, top := range sortedFuncs(tops) {
+		readsKind := false
+		allCalls(top, true, func(_ *ssa.Function, call ssa.CallInstruction) {
+			cc := call.Common()
+			if cc.IsInvoke() && cc.Method.Name() == "Kind" {
+				if nt := namedOf(cc.Value.Type()); nt != nil && nt.Obj().Name() == "Type" && nt.Obj().Pkg() != nil && nt.Obj().Pkg().Path() == modPath {
+					readsKind = true
+				}
+			}
+		})
+		n++
+		c.Check(rule, FuncKey(top)+" chooses the width of its scratch array from the column", top.Pos(), readsKind, FuncKey(top)+" hands a column buffer a scratch array of fixed-width integers without ever reading the physical kind of the column: when a tag gives the column another width (int(64) on an int16 field) the buffer reads the array with the wrong element size — neighbouring values glued together, and memory past the scratch")
+	}
+	c.Min(rule, 2)
 }
